@@ -2,7 +2,7 @@
 # build_h3.sh <variant> <outdir>
 # Compiles /repo/src/h3lib/lib/*.c (current working tree) into <outdir>/libh3.a and
 # generates <outdir>/h3api.h from h3api.h.in. Nothing is cached: every call recompiles.
-# variants: opt | san | alloc | allocsan | tsan | trap
+# variants: opt | san | alloc | allocsan | tsan | trap | sched
 set -e
 variant=$1; out=$2
 REPO=${VERIF_REPO:-/repo}
@@ -21,7 +21,8 @@ case $variant in
   alloc)    CC=gcc;   FL="-O2 -DH3_PREFIX= -DH3_ALLOC_PREFIX=vf_" ;;
   allocsan) CC=clang; FL="-O1 -fsanitize=address,undefined -fno-sanitize-recover=all -DH3_PREFIX= -DH3_ALLOC_PREFIX=vf_" ;;
   tsan)     CC=clang; FL="-O1 -fsanitize=thread -DH3_PREFIX= -DH3_ALLOC_PREFIX=vf_" ;;
-  trap)     CC=gcc;   FL="-O2 -fno-pic -fno-pie -DH3_PREFIX= -DH3_ALLOC_PREFIX=vf_" ;;
+  trap)     CC=gcc;   FL="-O2 -fno-pic -fno-pie -fno-common -DH3_PREFIX= -DH3_ALLOC_PREFIX=vf_" ;;
+  sched)    CC=gcc;   FL="-O2 -finstrument-functions -DH3_PREFIX= -DH3_ALLOC_PREFIX=vf_" ;;
   *) echo "unknown variant $variant" >&2; exit 2 ;;
 esac
 pids=()
